@@ -47,7 +47,13 @@ def scaled_handles(spec, meth):
             parts.append(ca.repmat(sc, n, 1) if sc.numel() == 1 and n != 1 else sc)
         return ca.vcat(parts) if parts else None
     out = []
-    sx = col("x", spec.states)
+    def blocks(bl):
+        parts = []
+        for key, i, n in bl:
+            sc = ca.DM(spec._scale(key, i, n))
+            parts.append(ca.repmat(sc, n, 1) if sc.numel() == 1 and n != 1 else sc)
+        return ca.vcat(parts) if parts else None
+    sx = blocks(spec.state_blocks())
     if sx is not None:
         for k in (range(N + 1) if spec.method != "SS" else [0]):
             out.append(("X[%d]" % k, meth.X[k], sx))
@@ -57,7 +63,7 @@ def scaled_handles(spec, meth):
                     Xc = ca.MX(meth.Xc[k][i])
                     for j in range(Xc.shape[1]):
                         out.append(("Xc[%d][%d][:,%d]" % (k, i, j), Xc[:, j], sx))
-    su = col("u", spec.controls)
+    su = blocks(spec.control_blocks())
     if su is not None:
         for k in range(N):
             out.append(("U[%d]" % k, meth.U[k], su))
@@ -213,6 +219,7 @@ def erk_step(tab, f, x, t, h):
 class Oracle:
     def __init__(self, spec, meth):
         self.spec = spec
+        E.VIEW = spec.view()          # row selections of the user's atoms in the full state / control vectors (higher-order controls)
         self.H = Handles(spec, meth)
         self.ts = time_grid(spec, self.H)
         self.env = Env(spec, self.H, self.ts)
@@ -222,10 +229,28 @@ class Oracle:
 
     # -- user functions on values -------------------------------------------------------
     def rhs(self, d):
-        """declared right-hand side at the values in d"""
+        """declared right-hand side at the values in d (d['x'], d['u']: FULL state / control vectors)"""
         s = self.spec
         nx = sum(s.states)
-        return E(s.ode.name, nx, s.ode.deps).on(lambda a: d[a])
+        user = E(s.ode.name, nx, s.ode.deps).on(lambda a: d[a])
+        if not s.hoc:
+            return user
+        # integrator chains of the higher-order controls: w0' = w1, ..., w_{k-1}' = helper control
+        X, U = ca.MX(d["x"]), ca.MX(d["u"])
+        rows, xo, uo = [user], nx, sum(s.controls)
+        for n, k in s.hoc:
+            for i in range(k):
+                rows.append(X[xo + (i + 1) * n: xo + (i + 2) * n] if i + 1 < k else U[uo:uo + n])
+            xo += n * k
+            uo += n
+        return ca.vcat(rows)
+
+    def block_scales(self, blocks, der=False):
+        out = []
+        for key, i, n in blocks:
+            sc = self.spec._scale("der" if (der and key == "x") else key, i, n) if not (der and key == "w") else 1
+            out.append(ca.DM.ones(n, 1) * sc)
+        return ca.vcat(out) if out else ca.DM.zeros(0, 1)
 
     def alg(self, d):
         s = self.spec
@@ -320,7 +345,8 @@ class Oracle:
         sig = {"x", "u", "z", "t", "pc", "pcp", "vc", "vcp", "DT", "DT_control"}
         def s(a):
             return (a[1] in sig) if isinstance(a, tuple) else a in sig
-        have = {"x": self.spec.states, "u": self.spec.controls, "z": self.spec.algebraics,
+        sig = sig | {"w"}
+        have = {"x": self.spec.states, "u": self.spec.controls, "w": self.spec.hoc, "z": self.spec.algebraics,
                 "pc": self.spec.params.get("control"), "pcp": self.spec.params.get("control+"),
                 "vc": self.spec.variables.get("control"), "vcp": self.spec.variables.get("control+")}
         for a in c.expr.deps:
@@ -337,7 +363,7 @@ class Oracle:
             return self.expected_dc()
         X, xk, Q = self.node_states()
         self.X, self.xk, self.Q = X, xk, Q
-        scale_x = self.scale_vec("x", s.states)
+        scale_x = self.block_scales(s.state_blocks())
         # C01: one gap-closing row per interval, residual = node state - propagated state
         if s.method == "MS":
             for k in range(N):
@@ -456,8 +482,8 @@ class Oracle:
         tau = [float(t) for t in m.tau]
         C, D, B = ca.DM(m.C), ca.DM(m.D), ca.DM(m.B)
         X = [ca.MX(x) for x in H.X]
-        scale_x = self.scale_vec("x", s.states)
-        scale_der = self.scale_vec("der", s.states)
+        scale_x = self.block_scales(s.state_blocks())
+        scale_der = self.block_scales(s.state_blocks(), der=True)
         scale_z = self.scale_vec("z", s.algebraics)
         nz = sum(s.algebraics)
         ints = self.integrands()
@@ -621,8 +647,8 @@ def expected_initial(spec, meth, values):
     # states
     off = 0
     nodes = range(N + 1) if spec.method != "SS" else range(1)
-    for i, n in enumerate(spec.states):
-        val = last.get(("x", i))
+    for key_, i, n in spec.state_blocks():
+        val = last.get(("x", i)) if key_ == "x" else None
         for j in nodes:
             h = block(H.X[j], off, n)
             if val is None:
@@ -631,12 +657,12 @@ def expected_initial(spec, meth, values):
                 exp = val.on(lambda a, j=j: {"t": ts[j]}[a])
             else:
                 exp = column(val, n, min(j, N - 1), j, False)
-            out.append((("x", i, "node", j), h, exp))
+            out.append(((key_, i, "node", j, off), h, exp))
         off += n
     # controls (per interval, time expressions at the interval's start time)
     off = 0
-    for i, n in enumerate(spec.controls):
-        val = last.get(("u", i))
+    for key_, i, n in spec.control_blocks():
+        val = last.get(("u", i)) if key_ == "u" else None
         for k in range(N):
             h = block(H.U[k], off, n)
             if val is None:
@@ -645,7 +671,7 @@ def expected_initial(spec, meth, values):
                 exp = val.on(lambda a, k=k: {"t": ts[k]}[a])
             else:
                 exp = column(val, n, k, k, True)
-            out.append((("u", i, "interval", k), h, exp))
+            out.append(((key_, i, "interval", k, off), h, exp))
         off += n
     # variables
     offg = 0
@@ -695,8 +721,8 @@ def expected_initial(spec, meth, values):
         m = meth
         tau = [float(t) for t in m.tau]
         off = 0
-        for i, n in enumerate(spec.states):
-            val = last.get(("x", i))
+        for key_, i, n in spec.state_blocks():
+            val = last.get(("x", i)) if key_ == "x" else None
             for k in range(N):
                 dt = (ts[k + 1] - ts[k]) / M
                 for l in range(M):
@@ -712,7 +738,7 @@ def expected_initial(spec, meth, values):
                             exp = val.on(lambda a, tt=tt: {"t": tt}[a])
                         else:
                             exp = column(val, n, k, k, True)
-                        out.append((("x", i, "helper", k, l, j), h, exp))
+                        out.append(((key_, i, "helper", k, l, j, off), h, exp))
             off += n
         # algebraic variables exist at the collocation times: constants everywhere, time expressions at those times
         off = 0
